@@ -7,7 +7,7 @@ CONSTANTS
   KVals <- K3
   Orders <- OrdOne
   FullOrder = TRUE
-  Points <- Pts2
+  Points <- Pts1
   Feeds <- NoFeeds
   PhaseMaps <- Ph1
   ReKVals <- NoReK
